@@ -737,7 +737,8 @@ def eval_order2(case_dec, rng):
     def G(xf_):
         with warnings.catch_warnings():
             warnings.simplefilter("ignore")
-            return realify(cj(grad_phi(unrealify(xf_, x0))))
+            # fresh stencil points get the memory layout class of the case (order='A'/'K' read it)
+            return realify(cj(grad_phi(relayout(unrealify(xf_, x0), case_dec.get("layout")))))
 
     fd = fd_directional(G, xf, vf)
     if not fd.ok:
